@@ -27,7 +27,7 @@ func init() {
 		ID: "C20", Level: "model_checking",
 		Rule: "E2: server = the gin engine built by the service's own main() (re-packaged), driven through ServeHTTP in a supervised worker process (a fatal error kills the worker and is attributed to the announced request). " +
 			"Alphabet: malformed bodies (empty, null, [], scalars, every prefix of a valid body cut at a token boundary, every top-level field mistyped, 1e999, 20000-deep nesting), " +
-			"every documented constraint violated one at a time on a valid base per method (invalid corpus, ~70 rules), valid corpus Σ. Bound: every single request; every ordered pair (history depth 2; thorough: " +
+			"every documented constraint violated one at a time on a valid base per method (invalid corpus, ~70 rules), valid corpus Σ. Bound: every single request; ordered pairs (history depth 2): quick = every request paired both ways with ~35 representatives (every 20th of each class, all distillation-function and tied-best requests), thorough = all pairs, " +
 			"depth 3 over class representatives, and the whole alphabet as one session against the REAL service binary built from httpClient/ on a loop-back port, verdicts cross-checked with the in-process engine) with a liveness probe after each step (GET /api/preferenceFunctions lists the 7 methods; a fixed valid decide returns its baseline bytes). " +
 			"State = (alive, fingerprint of package-level state, probe bytes); expected reachable set: one state. Oracle: valid => 200 with result and biases; otherwise 400 with error and the echoed request; " +
 			"a constraint violation is never answered 200; unknown method/bias errors list the available names. states/transitions/traces as counted.",
@@ -258,6 +258,16 @@ func c20Run(s *Shard) {
 	s.Data["fingerprint"] = Fingerprint()
 	s.Data["probe"] = bodyHash(probeBaseline)
 	sampled := false
+	// representatives for the quick tier's depth-2 histories: every 20th request of each class, every request whose rule
+	// mentions the distillation function (historically fatal) and the tied-best series requests (historically endless)
+	rep := make([]bool, len(alpha))
+	perClass := map[string]int{}
+	for i, a := range alpha {
+		perClass[a.Class]++
+		if perClass[a.Class]%20 == 1 || strings.Contains(a.Rule, "distillation") || strings.Contains(a.Name, "tied-best") {
+			rep[i] = true
+		}
+	}
 	// depth 1 and depth 2
 	for i, a := range alpha {
 		if !s.Take() {
@@ -274,14 +284,8 @@ func c20Run(s *Shard) {
 			continue
 		}
 		for bi, b := range alpha {
-			if quick(s) && a.Class == "valid" && b.Class == "valid" && (i%8 != 0 || bi%2 != 0) {
-				continue // valid x valid pairs are C09's all-pairs clause; keep a sixteenth here in the quick tier
-			}
-			if quick(s) && strings.HasPrefix(a.Name, "malformed/prefix-") && i%6 != 0 && bi%9 != 0 {
-				continue // most truncated bodies as first element meet every ninth second request in the quick tier
-			}
-			if quick(s) && strings.HasPrefix(b.Name, "malformed/prefix-") && (bi%6 != 0) {
-				continue // truncated bodies as second element: every sixth cut point in the quick tier
+			if quick(s) && !rep[i] && !rep[bi] {
+				continue // quick tier: every request is paired (both ways) with every representative; thorough: all pairs
 			}
 			c := &Case{Prop: "C20", Kind: "history", Params: M{"history": []c20Req{a, b}}}
 			s.Evals++
